@@ -138,12 +138,14 @@ CLAIMS.update({
     "C14": ("proof", "PARTIAL proof. Coq theorems, for every text and the regenerated tables: a text whose token sequence is not derivable from "
             "the start symbol -- what a malformed member makes it -- always gets at least one Error (C14_malformed_is_reported); once error "
             "recovery has left its mark (an error symbol on the stack or an Error pushed) no later outcome is silent "
-            "(C14_recovery_is_never_silent); recovery never panics and keeps the stack well typed (C01_parse_partial). NOT proved: that the "
+            "(C14_recovery_is_never_silent); recovery never panics and keeps the stack well typed (C01_parse_partial). KNOWN FINDING "
+            "(known_findings.txt; Coq witness C14_known): in an enum body a malformed member that opens an annotation parenthesis without "
+            "closing it absorbs its terminating comma and the following elements; only that class is tolerated. NOT proved: that the "
             "tree still holds every well-formed sibling and that every syntax Error lies inside the member's extent. Those are decided by "
             "an oracle on the implementation -- random garbage members at every position of generated items: a tree exists, the well-formed "
             "siblings are a subsequence of the members, at least one Error, every syntax Error inside the garbage's extent -- and by the "
             "exact correspondence with the table-driven Coq parser model (which reproduces lalrpop's recovery, dropped tokens included).",
-            "Coq proof (a malformed text always gets an Error; recovery is never silent; no panic) + garbage-member oracle + exact differential correspondence",
+            "Coq proof (a malformed text always gets an Error; recovery is never silent; no panic) + garbage-member oracle + exact differential correspondence; one known finding",
             PARSE_NOTE),
     "C18": ("proof", "PARTIAL proof. Coq theorems: for any text before, any comment text without '/' not starting with '*' (any Unicode), and any blank "
             "gap -- also a gap that contains ordinary block comments and line comments (C18_locate_gap, C18_attach_gap) -- the back-scan "
